@@ -155,7 +155,12 @@ def writer_case(args):
             bulk.wtnasints(f, extra, list(ids))
         return f.getvalue(), list(dse.TOKENS)
 
-    for pc, val, exc in ex.explore(body, assumptions=pre):
+    def _paths():
+        try:
+            yield from ex.explore(body, assumptions=pre)
+        except RuntimeError as ex_:          # path budget: a tool limit, reported as undecided (never as a crash or a violation)
+            res.append(("%s[n=%d]::all paths explored" % (kind, n), "undecided", {"reason": str(ex_)}))
+    for pc, val, exc in _paths():
         npth += 1
         nm = "%s[n=%d%s]::path%d" % (kind, n, ",start=%d" % extra if kind == "wtnasints" else "", npth)
         if exc is not None:
